@@ -51,7 +51,14 @@ pub fn pyramid_of(o: &Value) -> Option<TileBBoxPyramid> {
 	Some(p)
 }
 
+/// Which variant of a case runs (source from a file, target format, option spelling) depends on the case's POSITION in the
+/// enumeration; a case written into a replay file carries that position as `orig_n`, so that a replay runs the same variant.
+fn variant_of(case: &Value, n: usize) -> usize {
+	case.get("orig_n").and_then(|x| x.as_u64()).map(|x| x as usize).unwrap_or(n)
+}
+
 fn conv_case(rt: &tokio::runtime::Runtime, dir: &Path, case: &Value, n: usize) -> Value {
+	let vn = variant_of(case, n);
 	let mut c = case.clone();
 	c["fmt"] = json!("mem");
 	c["tf"] = json!("pbf");
@@ -65,8 +72,8 @@ fn conv_case(rt: &tokio::runtime::Runtime, dir: &Path, case: &Value, n: usize) -
 	// every 25th case reads its source from a REAL container file (written by the independent encoder of that format) through
 	// the real reader: "all sources" of the property. What the output has to contain is stated over the source's TILES, so
 	// `srccov` stays the hull of the tiles whatever the reader advertises.
-	let src_file: Option<std::path::PathBuf> = if n % 25 == 3 && !src.tiles.is_empty() {
-		let f = ["mbtiles", "versatiles", "pmtiles", "tar"][(n / 25) % 4];
+	let src_file: Option<std::path::PathBuf> = if vn % 25 == 3 && !src.tiles.is_empty() {
+		let f = ["mbtiles", "versatiles", "pmtiles", "tar"][(vn / 25) % 4];
 		let p = file_path(dir, f, "convsrc");
 		remove_path(&p);
 		let fsrc = Source { fmt: f.to_string(), tf: src.tf.clone(), tc: src.tc.clone(), tiles: src.tiles.clone(), blobs: src.blobs.clone(), by_bytes: src.by_bytes.clone() };
@@ -159,8 +166,8 @@ fn conv_case(rt: &tokio::runtime::Runtime, dir: &Path, case: &Value, n: usize) -
 	ev["expect"] = json!(looked.iter().filter(|(_, r)| **r > 0 || **r == RES_UNKNOWN).map(|((z, y, x), r)| json!([z, x, y, r])).collect::<Vec<_>>());
 	// every 8th case: real conversion into a file, decoded independently
 	ev["file"] = json!({"skip":1,"ok":0,"tiles":[]});
-	if n % 8 == 0 && !cov.is_empty() {
-		let fmt = ["versatiles", "pmtiles", "tar", "versatiles", "pmtiles", "tar", "versatiles", "mbtiles"][(n / 8) % 8];
+	if vn % 8 == 0 && !cov.is_empty() {
+		let fmt = ["versatiles", "pmtiles", "tar", "versatiles", "pmtiles", "tar", "versatiles", "mbtiles"][(vn / 8) % 8];
 		let path = file_path(dir, fmt, "conv");
 		remove_path(&path);
 		let p = path.to_str().unwrap().to_string();
@@ -343,13 +350,14 @@ fn run_cli(bin: &str, args: &[String]) -> (i64, String) {
 /// `versatiles convert <options> src.versatiles out.<fmt>` for a conversion case: the options are rendered the way a user
 /// types them; the source file comes from the independent encoder, the output is decoded independently
 fn cli_conv_case(bin: &str, dir: &Path, case: &Value, n: usize) -> Value {
+	let vn = variant_of(case, n);
 	let mut c = case.clone();
 	c["fmt"] = json!("mem");
 	c["tf"] = json!("pbf");
 	c["tc"] = json!("gzip");
 	let src = source_of(&c);
 	let o = &case["opts"];
-	let fmt = ["versatiles", "tar", "pmtiles", "directory", "mbtiles", "versatiles"][(n / 3) % 6];
+	let fmt = ["versatiles", "tar", "pmtiles", "directory", "mbtiles", "versatiles"][(vn / 3) % 6];
 	let sp = dir.join("cli_src.versatiles");
 	std::fs::write(&sp, indep::encode_versatiles("pbf", "gzip", &src.raw_tiles(), None, &indep::VtChoices { partial_blocks: true, reverse_tiles: false, share_all: false, index_first: false, shuffle_blocks: false, gap: 0 })).unwrap();
 	let path = file_path(dir, fmt, "cli");
@@ -368,7 +376,7 @@ fn cli_conv_case(bin: &str, dir: &Path, case: &Value, n: usize) -> Value {
 	if o["hasgeo"].as_u64().unwrap() == 1 {
 		let g = geo_of(&o["geo"]);
 		// the three separators the option accepts
-		match n % 3 {
+		match vn % 3 {
 			0 => args.push(format!("--bbox={},{},{},{}", g.0, g.1, g.2, g.3)),
 			1 => {
 				args.push("-b".into());
@@ -405,6 +413,7 @@ fn cli_conv_case(bin: &str, dir: &Path, case: &Value, n: usize) -> Value {
 
 /// `versatiles convert [-c <codec>] [-f] src.versatiles out.<fmt>` for a recompression case
 fn cli_recomp_case(bin: &str, dir: &Path, case: &Value, n: usize, override_input: bool) -> Value {
+	let vn = variant_of(case, n);
 	let mut c = case.clone();
 	c["fmt"] = json!("mem");
 	c["tf"] = json!("pbf");
@@ -439,7 +448,7 @@ fn cli_recomp_case(bin: &str, dir: &Path, case: &Value, n: usize, override_input
 	let mut args: Vec<String> = vec!["convert".into()];
 	if target != "keep" {
 		let name = match target { "none" => "uncompressed", t => t };
-		if n % 2 == 0 {
+		if vn % 2 == 0 {
 			args.push(format!("--compress={name}"));
 		} else {
 			args.push("-c".into());
@@ -447,7 +456,7 @@ fn cli_recomp_case(bin: &str, dir: &Path, case: &Value, n: usize, override_input
 		}
 	}
 	if force {
-		args.push(if n % 2 == 0 { "-f".into() } else { "--force-recompress".into() });
+		args.push(if vn % 2 == 0 { "-f".into() } else { "--force-recompress".into() });
 	}
 	if override_input {
 		args.push(format!("--override-input-compression={}", match src_tc { "none" => "uncompressed", t => t }));
